@@ -33,6 +33,9 @@ func (fe *BaseFieldElement) UnmarshalCBOR(data []byte) error {
 	if err != nil {
 		return errs.Wrap(err).WithMessage("failed to unmarshal base field element")
 	}
+	if dto == nil {
+		return errs.Wrap(serde.ErrNull).WithMessage("failed to unmarshal base field element")
+	}
 
 	bfe, err := NewBaseField().FromBytes(dto.BaseFieldBytes)
 	if err != nil {
@@ -57,6 +60,9 @@ func (fe *Scalar) UnmarshalCBOR(data []byte) error {
 	dto, err := serde.UnmarshalCBOR[*scalarDTO](data)
 	if err != nil {
 		return errs.Wrap(err).WithMessage("failed to unmarshal scalar")
+	}
+	if dto == nil {
+		return errs.Wrap(serde.ErrNull).WithMessage("failed to unmarshal scalar")
 	}
 
 	s, err := NewScalarField().FromBytes(dto.ScalarBytes)
